@@ -5,8 +5,10 @@ import (
 	"fmt"
 	"math/rand"
 	"os"
+	"os/exec"
 	"path/filepath"
 	"strings"
+	"syscall"
 	"time"
 
 	"github.com/xelaj/errs"
@@ -18,6 +20,96 @@ import (
 func init() { wk.Register("c12", c12) }
 
 var c12Hosts = []string{"149.154.167.50:443", "", "localhost:1", "хост.рф:443", "a\"b\\c:1", "<script>&amp;</script>", "tab\there", "nl\nhere", "{\"key\":\"x\"}", " sep", "emoji😀:443", "a,b", "[::1]:443", "\x00nul", "ü"}
+
+func init() { wk.Register("c12child", c12child) }
+
+// c12child stores one session after the other on the given path until it is killed (the parent kills it with
+// SIGKILL at a PRNG-chosen moment: a real crash during writing, whatever way the library writes).
+func c12child(c *wk.Ctx) {
+	path := c.Args["path"]
+	r := rand.New(rand.NewSource(c.Seed))
+	l := session.NewFromFile(path)
+	for i := 0; i < 1000000; i++ {
+		s := c12crashSession(r, i)
+		if err := l.Store(s); err != nil {
+			fmt.Fprintln(os.Stderr, "child store:", err)
+			os.Exit(5)
+		}
+	}
+}
+
+// c12crashSession: the i-th session of the child's sequence (large keys make the write long enough to be hit).
+func c12crashSession(r *rand.Rand, i int) *session.Session {
+	return &session.Session{Key: rbytes(r, 256+(i%7)*4096), Hash: rbytes(r, 8), Salt: int64(r.Uint64()), Hostname: fmt.Sprintf("host%d:443", i)}
+}
+
+// c12crash: kill a process in the middle of its stores, then look at what is left behind.
+func c12crash(c *wk.Ctx, idx int, r *rand.Rand, base string) {
+	exe, err := os.Executable()
+	if err != nil {
+		c.Log.Emit(coreInconclusive("c12 crash: " + err.Error()))
+		return
+	}
+	dir := filepath.Join(base, fmt.Sprintf("crash%d", idx))
+	os.MkdirAll(dir, 0o755)
+	defer os.RemoveAll(dir)
+	path := filepath.Join(dir, "session.json")
+	seed := int64(r.Uint32())
+	cmd := exec.Command(exe, "-w", "c12child", "-seed", fmt.Sprint(seed), "-log", filepath.Join(dir, "child.log"), "-args", "path="+path)
+	if err := cmd.Start(); err != nil {
+		c.Log.Emit(coreInconclusive("c12 crash: " + err.Error()))
+		return
+	}
+	time.Sleep(time.Duration(20+r.Intn(60)) * time.Millisecond) // process start + some stores
+	cmd.Process.Signal(syscall.SIGKILL)
+	cmd.Wait()
+	c.Count("crash.processes_killed_while_storing", 1)
+	// what the next start of the application sees
+	var got *session.Session
+	var lerr error
+	pan, pm, st := wk.Guard(func() { got, lerr = session.NewFromFile(path).Load() })
+	switch {
+	case pan:
+		c.Viol("C12", idx, "kill/panic/"+st, pm, nil)
+		return
+	case lerr == nil:
+		// must be one of the sessions the child stored
+		rr := rand.New(rand.NewSource(seed))
+		found := false
+		for i := 0; i < 20000 && !found; i++ {
+			found = sessEq(got, c12crashSession(rr, i))
+		}
+		if !found {
+			c.Viol("C12", idx, "kill/different-session", "after the writer was killed, Load returns a session that was never stored: "+sessStr(got), nil)
+			return
+		}
+		c.Count("crash.left_a_complete_session", 1)
+	default:
+		c.Count("crash.left_an_error", 1)
+	}
+	// and the path is still a path "whose directory exists": the next store wins, for an old loader as for a fresh one
+	s2 := c12session(r)
+	var serr error
+	pan, pm, st = wk.Guard(func() { serr = session.NewFromFile(path).Store(s2) })
+	if pan {
+		c.Viol("C12", idx, "kill/panic/"+st, pm, nil)
+		return
+	}
+	if serr != nil {
+		ents, _ := os.ReadDir(dir)
+		var names []string
+		for _, e := range ents {
+			names = append(names, e.Name())
+		}
+		c.Viol("C12", idx, "kill/store-refused-after-crash", fmt.Sprintf("after a writer was killed in the middle of its stores, Store on the same path fails: %v (directory now holds %v)", serr, names), nil)
+		return
+	}
+	pan, pm, st = wk.Guard(func() { got, lerr = session.NewFromFile(path).Load() })
+	if pan || lerr != nil || !sessEq(got, s2) {
+		c.Viol("C12", idx, "kill/store-after-crash-not-read-back", fmt.Sprint(pm, lerr, st), nil)
+	}
+	c.Distinct("kill", idx)
+}
 
 func c12session(r *rand.Rand) *session.Session {
 	s := &session.Session{}
@@ -71,7 +163,7 @@ func c12(c *wk.Ctx) {
 		if c.Mine(idx) {
 			r := c.Rand(idx)
 			s := c12session(r)
-			kind := []string{"absolute", "relative", "bare", "dot-relative", "dotdot", "parent-relative", "odd-name", "hidden", "symlinked-dir", "long-name", "symlinked-file"}[k%11]
+			kind := []string{"absolute", "relative", "bare", "dot-relative", "dotdot", "parent-relative", "odd-name", "hidden", "symlinked-dir", "long-name", "symlinked-file", "other-filesystem"}[k%12]
 			var path string
 			switch kind {
 			case "dotdot":
@@ -90,6 +182,13 @@ func c12(c *wk.Ctx) {
 				target := filepath.Join(cwd, "sub", fmt.Sprintf("target%d.json", idx))
 				path = filepath.Join(base, fmt.Sprintf("link%d.json", idx))
 				os.Symlink(target, path) // dangles until the first store
+			case "other-filesystem":
+				// not on the volume of the temporary directory (when the machine has such a place)
+				path = filepath.Join(base, fmt.Sprintf("o%d.json", idx))
+				if o := otherFilesystem(); o != "" {
+					path = filepath.Join(o, fmt.Sprintf("vc12-%d-%d.json", os.Getpid(), idx))
+					c.Count("paths.on_another_filesystem", 1)
+				}
 			case "long-name":
 				path = filepath.Join(base, strings.Repeat("n", 200)+fmt.Sprintf("%d.json", idx))
 			case "absolute":
@@ -172,6 +271,14 @@ func c12(c *wk.Ctx) {
 			}
 			idx++
 		}
+	}
+	// ---- C0. real crashes: a child process is killed (SIGKILL) while it stores session after session
+	for k := 0; k < c.Pick(12, 200); k++ {
+		if c.Mine(idx) {
+			c.Begin(idx, fmt.Sprintf("kill writer %d", k))
+			c12crash(c, idx, c.Rand(idx), base)
+		}
+		idx++
 	}
 	// ---- C. crash points: every strict prefix of a stored file
 	n = c.Pick(20, 200)
